@@ -647,6 +647,12 @@ func fresh() string {
 
 // runCase executes prog (delivered by src) and compares with the clear run.
 func runCase(c *mc.Ctx, family string, pi, ti int, prog []byte, split int, describe func() string) mc.Verdict {
+	return runCase2(c, family, pi, ti, prog, split, 0, describe)
+}
+
+// runCase2: like runCase; with 0 < split < split2 < len(prog) the source
+// delivers the input in three pieces that end at split and split2.
+func runCase2(c *mc.Ctx, family string, pi, ti int, prog []byte, split, split2 int, describe func() string) mc.Verdict {
 	intp := postscript.NewInterpreter()
 	var err error
 	if split == -1 {
@@ -659,6 +665,9 @@ func runCase(c *mc.Ctx, family string, pi, ti int, prog []byte, split int, descr
 		src.Decide = func(call, want, remaining int) (int, bool) {
 			if call == 0 {
 				return split, false
+			}
+			if call == 1 && split2 > split && split2 < len(prog) {
+				return split2 - split, false
 			}
 			return want, false
 		}
@@ -957,6 +966,45 @@ func posBody(items []posItem) func(c *mc.Ctx, item int) mc.Verdict {
 		})
 		if v.OK {
 			v.Outcome = contNames[it.cont] + "/" + []string{"padded", "split"}[mode]
+		}
+		return v
+	}
+}
+
+// threePiecesItems / threePiecesBody: the source hands over a short program in
+// three pieces, for every pair of cut points: the second piece may be shorter
+// than the first (the read buffer then still holds older bytes behind the
+// valid ones) and may end between the two digits of a hexadecimal pair.
+type threeItem struct{ pi, cont, first int }
+
+func threePiecesItems() []threeItem {
+	var out []threeItem
+	for pi, p := range plaintexts {
+		if p.long {
+			continue
+		}
+		for cont := contBinary; cont <= contHexMixed; cont++ {
+			n := len(buildSection(p, cont, "\n", defaultBinPrefix, nil)) + len(trailers[trailersFor(p)[0]].text)
+			for first := 1; first < n-1; first++ {
+				out = append(out, threeItem{pi, cont, first})
+			}
+		}
+	}
+	return out
+}
+
+func threePiecesBody(items []threeItem) func(c *mc.Ctx, item int) mc.Verdict {
+	return func(c *mc.Ctx, item int) mc.Verdict {
+		it := items[item]
+		p := plaintexts[it.pi]
+		ti := trailersFor(p)[0]
+		prog := append(buildSection(p, it.cont, "\n", defaultBinPrefix, nil), trailers[ti].text...)
+		second := it.first + 1 + c.Choose(len(prog)-1-it.first)
+		v := runCase2(c, "three-pieces", it.pi, ti, prog, it.first, second, func() string {
+			return fmt.Sprintf("plaintext %q, %s, trailer %q, delivered in three pieces ending at offsets %d, %d and %d: %s", p.name, contNames[it.cont], trailers[ti].name, it.first, second, len(prog), show(prog))
+		})
+		if v.OK {
+			v.Outcome = contNames[it.cont]
 		}
 		return v
 	}
@@ -1459,6 +1507,9 @@ func main() {
 				Describe: func(i int) string { return fmt.Sprintf("%+v", pi[i]) },
 				CrashKey: func(int) string { return "C05:position:crash" },
 				Rule:     "item = (plaintext, container of 4, gap of 2, trailer of 4); choices: every offset from 8 bytes before `eexec` to 8 bytes after the first token following the encrypted part x {padding comment so that the 512-byte refill boundary falls there, source delivering exactly that many bytes first}; differential oracle; non-trivial = final state differs from a fresh interpreter's"})
+			t3 := threePiecesItems()
+			fams = append(fams, mc.Family{Name: "section-delivered-in-three-pieces", Items: len(t3), Body: threePiecesBody(t3), Budget: budget,
+				Rule: "item = (short plaintext, container of 4, end of the first piece); choice = end of the second piece: every pair of cut points 0 < i < j < length of the program (section + first trailer); the second piece may be shorter than the first and may end inside a pair of hex digits; oracle: state equals the clear-text reference run; non-trivial = state differs from a fresh interpreter"})
 			fams = append(fams, mc.Family{Name: "dictstack-inside-section", Items: len(insideBodies) * 4 * len(insideOuters), Body: insideBody, Budget: budget,
 				Rule: "dictionaries opened before `eexec` (none; one or two fresh ones; systemdict; userdict; a fresh one then systemdict; systemdict twice; the same fresh one twice; systemdict then a fresh one) x encrypted part that closes 0..3 dictionaries, then opens none / a new one / an old one, then defines a key x 4 containers; a simulation of the dictionary stack (the one before eexec plus systemdict) says which dictionary receives the definition: afterwards the key must be known there and nowhere else, and the stack depth restored; cases that would close userdict are skipped; non-trivial = all others"})
 			fams = append(fams, mc.Family{Name: "dictstack-restore", Items: len(restorePlains) * 4 * len(restoreOuters), Body: restoreBody, Budget: budget,
